@@ -177,7 +177,7 @@ def build_kwargs(opts):
     elif opts.get("tables") == "LALR":
         kw["tables"] = LALR
     for k in ("build_tree", "consume_input", "call_actions_during_tree_build", "debug_colors",
-              "return_position"):
+              "return_position", "debug"):
         if k in opts:
             kw[k] = opts[k]
     if "ws" in opts:
